@@ -46,7 +46,11 @@ def run_driver(binary, engine, inp, trace_path, timeout=600, extra_args=(), env=
     if to:
         raise MachineryError("driver %s timed out after %ds" % (engine, timeout))
     if rc != 0:
-        raise MachineryError("driver %s exited %s: %s" % (engine, rc, (err or b"").decode("utf-8", "replace")[-3000:]))
+        etxt = (err or b"").decode("utf-8", "replace")
+        crash = common.go_crash_in_library(etxt) if rc == 2 else None
+        if crash:
+            raise common.CodeCrash(engine, crash, {"engine": engine, "input": in_path, "stderr": etxt[-1500:]})
+        raise MachineryError("driver %s exited %s: %s" % (engine, rc, etxt[-3000:]))
     return (out or b"").decode("utf-8", "replace")
 
 
